@@ -16,6 +16,21 @@ pub fn gen(case: &Value) -> Value {
     }
 }
 
+/// Subcommand `genconf`: case {"id", "dir"}: chdir into the sandbox, load `typegen.json` and call the public library
+/// entry point generate_from_config (no cache involved: every call generates).
+pub fn genconf(case: &Value) -> Value {
+    let dir = case["dir"].as_str().expect("dir");
+    std::env::set_current_dir(dir).expect("chdir");
+    let r = tauri_typegen::GenerateConfig::from_file("typegen.json")
+        .map_err(|e| e.to_string())
+        .and_then(|c| tauri_typegen::generate_from_config(&c).map_err(|e| e.to_string()));
+    println!();
+    match r {
+        Ok(files) => json!({"id": case["id"], "ok": true, "files": files}),
+        Err(e) => json!({"id": case["id"], "ok": false, "err": e}),
+    }
+}
+
 fn main() {
-    tt_harness::dispatch(&[("gen", gen)]);
+    tt_harness::dispatch(&[("gen", gen), ("genconf", genconf)]);
 }
